@@ -46,6 +46,9 @@ type CallsiteC struct {
 	// Preserves: expressions (maps: with their contents) assumed unchanged by
 	// the call - an explicit frame assumption, reported in the evidence
 	Preserves []GhostAssign
+	// Havoc: lvalues given an arbitrary value after the call (interference by
+	// other goroutines up to the acquisition of a lock)
+	Havoc []string
 }
 
 type GhostAssign struct {
@@ -139,7 +142,7 @@ var specRe = regexp.MustCompile(`^spec\s+([A-Za-z_][A-Za-z0-9_]*)\s*\(([^)]*)\)\
 var lemmaRe = regexp.MustCompile(`^lemma(\[[A-Za-z0-9,]+\])?\s+([A-Za-z_][A-Za-z0-9_]*)\s*\(([^)]*)\)\s*(induct\s+([A-Za-z_][A-Za-z0-9_]*))?\s*$`)
 
 var topKeywords = []string{"typeinv ", "assume-typeinv ", "spec ", "axiom ", "lemma ", "lemma[", "func ", "extern ", "funcfield ", "functype ", "nopanic "}
-var subKeywords = []string{"requires", "ensures", "defines", "invariant", "decreases", "assert", "assume", "panics", "modifies", "pure", "loop ", "callsite ", "noswallow", "ghost ", "abstracts ", "maypanic", "before:", "after:", "uses ", "ignore ", "pattern ", "preserves ", "nullable "}
+var subKeywords = []string{"requires", "ensures", "defines", "invariant", "decreases", "assert", "assume", "panics", "modifies", "pure", "loop ", "callsite ", "noswallow", "ghost ", "abstracts ", "maypanic", "before:", "after:", "uses ", "ignore ", "pattern ", "preserves ", "nullable ", "havoc "}
 
 func startsWithAny(s string, ks []string) bool {
 	for _, k := range ks {
@@ -430,6 +433,11 @@ func ParseContractFile(path string) (*CFile, error) {
 			} else {
 				curCS.After = append(curCS.After, ga)
 			}
+		case strings.HasPrefix(t, "havoc "):
+			if curCS == nil {
+				return nil, errf(l, "havoc outside callsite")
+			}
+			curCS.Havoc = append(curCS.Havoc, splitTop(strings.TrimPrefix(t, "havoc "))...)
 		case strings.HasPrefix(t, "preserves "):
 			if curCS == nil {
 				return nil, errf(l, "preserves outside callsite")
